@@ -210,6 +210,50 @@ def lowered(o) -> bool:
     return seen_lower and seen_strip
 
 
+NUM_REF = r"[-+]?[0-9]*\.?[0-9]+%?"
+
+
+def number_token_language(project, chk, rule="N8"):
+    """The pattern that cuts rgb()/rgba()/informal strings into numeric tokens still recognises every ASCII number spelling the
+    pinned tokeniser does (sign, digits, leading-dot and trailing-digit decimals, percent). Decided on the pattern text by
+    automata inclusion (sa.relang); nothing is matched against anything."""
+    from sa.relang import witness_not_included, Unsupported as ReUnsupported
+    fi = project.funcs.get(f"{PAR}._extract_number_tokens")
+    if fi is None:
+        chk.not_decided.append(f"{rule}: _extract_number_tokens is gone; the token pattern was not located")
+        return 0
+    sc = Scope(project, fi)
+    pats = []
+    for c in own_nodes(fi.node):
+        if not (isinstance(c, ast.Call) and isinstance(c.func, ast.Attribute) and c.func.attr in ("findall", "finditer")):
+            continue
+        recv = c.func.value
+        pn = None
+        if sc.resolve(recv) == "re" and c.args:
+            pn = c.args[0]
+        else:
+            d = recv
+            if isinstance(recv, ast.Name) and recv.id in fi.module.top_assigns:
+                d = fi.module.top_assigns[recv.id]
+            if isinstance(d, ast.Call) and sc.resolve(d.func) == "re.compile" and d.args and len(d.args) == 1 and not d.keywords:
+                pn = d.args[0]
+        if isinstance(pn, ast.Constant) and isinstance(pn.value, str):
+            pats.append((c, pn.value))
+    if not pats:
+        chk.not_decided.append(f"{rule}: the numeric tokens are not cut out by a readable regular expression")
+        return 0
+    for c, pat in pats:
+        try:
+            w = witness_not_included(NUM_REF, pat)
+        except (ReUnsupported, Exception) as e:       # noqa: BLE001
+            chk.not_decided.append(f"{rule}: token pattern {pat!r} uses a construct the language comparison does not model ({e})")
+            continue
+        chk.check(w is None, rule, fi.short, f"pattern {pat!r}", project.loc(fi.module, c), "every ASCII number spelling (sign, digits, `.5`, `1.`-less decimals, `%`) is one token",
+                  how=f"L({NUM_REF}) is included in L({pat}) (subset construction over the pattern's character classes)",
+                  message=f"the number tokeniser {pat!r} no longer recognises {w!r} as one token (it is cut differently): e.g. an alpha written `.5` is read as `5`")
+    return len(pats)
+
+
 def run(project, chk):
     chk.rule("N1", "CSS_NAMED_COLORS has exactly the 148 keywords of CSS Color 3 + rebeccapurple, lower-case, each with the value CSS defines")
     chk.rule("N2", "every string dispatch test in parse_color_to_rgb / detect_color_format is applied to color.strip().lower()")
@@ -497,6 +541,8 @@ def run(project, chk):
     # ---------------------------------------------------------------- N5 hsl
     hsl_fields_read_as_css(project, chk, "N5")
     hsl_core_is_css(project, chk, "N5")
+    chk.rule("N8", "the numeric-token pattern of the rgb()/rgba() parser accepts every ASCII number spelling of CSS that the pinned one does (language inclusion, decided on the pattern)")
+    number_token_language(project, chk, "N8")
     # every way a hue enters hsl_to_rgb / hsla_to_rgb is wrapped
     for q in (f"{CONV}.hsl_to_rgb", f"{CONV}.hsla_to_rgb"):
         fi = project.func(q)
